@@ -161,6 +161,97 @@ def bounds_of(ctx, v):
     return [None if b[0] <= -INF else b[0], None if b[1] >= INF else b[1]]
 
 
+class _NoEval(Exception):
+    pass
+
+
+def _key_mentions(k, leaf):
+    if k == leaf:
+        return True
+    return isinstance(k, tuple) and any(_key_mentions(x, leaf) for x in k)
+
+
+def _key_eval(k, leaf, d):
+    """value of the value key k (interp.vkey of an int / Sym / Term / Lin) when the symbol `leaf` is the non-negative int d; C semantics of int
+    arithmetic on small non-negative operands.  _NoEval when k contains anything else that is not a constant"""
+    if isinstance(k, bool):
+        return int(k)
+    if isinstance(k, int):
+        return k
+    if k == leaf:
+        return d
+    if not isinstance(k, tuple) or not k:
+        raise _NoEval()
+    if k[0] == 'lin':
+        r = k[1]
+        for sub, c in k[2:]:
+            r += c * _key_eval(sub, leaf, d)
+        return r
+    if k[0] != 'term' or not isinstance(k[1], str):
+        raise _NoEval()
+    op = k[1].split(':')[0]
+    a = [_key_eval(x, leaf, d) for x in k[2:]]
+    if len(a) == 1:
+        if op == '!': return int(not a[0])
+        if op == '-': return -a[0]
+        if op == '~': return ~a[0]
+        raise _NoEval()
+    if len(a) != 2:
+        raise _NoEval()
+    x, y = a
+    if op in ('/', '%'):
+        if y == 0:
+            raise _NoEval()
+        q = abs(x) // abs(y) * (1 if (x >= 0) == (y >= 0) else -1)
+        return q if op == '/' else x - q * y
+    if op in ('<<', '>>'):
+        if not 0 <= y < 32:
+            raise _NoEval()
+        return x << y if op == '<<' else x >> y
+    f = {'+': lambda: x + y, '-': lambda: x - y, '*': lambda: x * y, '&': lambda: x & y, '|': lambda: x | y, '^': lambda: x ^ y,
+         '==': lambda: int(x == y), '!=': lambda: int(x != y), '<': lambda: int(x < y), '<=': lambda: int(x <= y), '>': lambda: int(x > y),
+         '>=': lambda: int(x >= y), '&&': lambda: int(bool(x) and bool(y)), '||': lambda: int(bool(x) or bool(y))}.get(op)
+    if f is None:
+        raise _NoEval()
+    return f()
+
+
+def sym_values(ctx, name, domain):
+    """The values d of `domain` (non-negative ints) the symbol `name` can have on this path: those every decision the path made on a value
+    computed from the symbol (ctx.facts / ctx.bounds / ctx.neq) admits.  None when one of these decisions cannot be evaluated (it also
+    depends on something else, or uses an operator this evaluator does not know)."""
+    leaf = ('sym', name)
+    cons = []
+    for k, v in ctx.facts.items():
+        if _key_mentions(k, leaf):
+            cons.append(('truth', k, bool(v)))
+    for k, b in ctx.bounds.items():
+        if _key_mentions(k, leaf):
+            cons.append(('range', k, b))
+    for k, s in ctx.neq.items():
+        if _key_mentions(k, leaf):
+            cons.append(('neq', k, s))
+    out = []
+    try:
+        for d in domain:
+            ok = True
+            for what, k, x in cons:
+                v = _key_eval(k, leaf, d)
+                if what == 'truth':
+                    ok = bool(v) == x
+                elif what == 'range':
+                    ok = x[0] <= v <= x[1]
+                else:
+                    ok = v not in x
+                if not ok:
+                    break
+            if ok:
+                out.append(d)
+    except _NoEval:
+        return None
+    return out
+
+
 class Agg:
     """collects verdicts per obligation key over many abstract inputs / paths; one rep.ob per key"""
 
